@@ -48,7 +48,7 @@ def tasks(tier, seed):
             if iv == 0:
                 ts.append({"kind": "nopings", "iv": iv, "to": to, "name": "nopings/%s" % to})
                 continue
-            traffics = ["none", "at-ping", "at-deadline"] if tier == "quick" else ["none", "at-ping", "at-deadline", "before-ping", "two", "burst"]
+            traffics = ["none", "at-ping", "at-deadline", "burst"] if tier == "quick" else ["none", "at-ping", "at-deadline", "before-ping", "two", "burst"]
             payloads = ["k"] if tier == "quick" else ["k", ""]
             bound = 1 if tier == "quick" else 2
             for payload in payloads:
@@ -82,7 +82,7 @@ def latency_pattern(pat, to):
     return None
 
 
-def traffic_script(kind, iv, to):
+def traffic_script(kind, iv, to, silent=False):
     first = 2.0 * iv
     msg = R.encode(R.TEXT, b"d")
     if kind == "none":
@@ -96,7 +96,11 @@ def traffic_script(kind, iv, to):
     if kind == "two":
         return [(first + (to or 1) - 0.25, "data", msg), (first + 2 * (to or 1), "data", msg)]
     if kind == "burst":
-        return [(first, "data", msg + R.encode(R.PING, b"sp") + msg), (first + iv, "data", R.encode(R.PONG, b"unsolicited"))]
+        if silent:
+            # a peer that "stops answering" sends no pongs at all from then on (an unsolicited pong is indistinguishable from an answer)
+            return [(first, "data", msg + R.encode(R.PING, b"sp") + msg)]
+        return [(first, "data", msg + R.encode(R.PING, b"sp") + msg), (first + iv, "data", R.encode(R.PONG, b"unsolicited")),
+                (first + iv + (to or 1) + 0.25, "data", R.encode(R.PONG, b"unsolicited2"))]
     raise KeyError(kind)
 
 
@@ -117,7 +121,7 @@ class Harness:
             script = [(3.0, "data", R.encode(R.CLOSE, b"\x03\xe8"))]
             mk = lambda: tnet.ServerPeer(script=script, on_ping=("all", 0.0))
         elif kind == "silent":
-            script = traffic_script(d["traffic"], iv, to)
+            script = traffic_script(d["traffic"], iv, to, silent=True)
             mk = lambda: tnet.ServerPeer(script=script, on_ping=("first", d["j"], 0.25 if to > 0.25 else 0.0))
         else:
             end_at = 2.0 * iv + 4 * iv + 0.5
